@@ -17,7 +17,7 @@ RULE  = ("seeded operation histories (insert rows/dicts/columns, index, where [9
 PLAN  = {"quick":    {"shards": 16, "cases": 240000, "timeout": 600,  "budget_s": 100},
          "thorough": {"shards": 16, "cases": 4000000, "timeout": 3000, "budget_s": 1200}}
 REQUIRED = ["oracle.where", "oracle.where.indexed", "oracle.where.scan", "oracle.groupby", "oracle.index",
-            "contract.index.rows_preserved", "contract.insert.columns_equal_length", "oracle.where.view"]
+            "contract.index.rows_preserved", "contract.insert.columns_equal_length", "oracle.where.view", "oracle.lazy-resort"]
 ASSUMPTIONS = [
     "ordering comparisons on Missing cells are only checked differentially (indexed path == scan path, neither raises)",
     "columns holding real None are never indexed; arguments are of the column's own kind (no str-vs-int comparisons)",
@@ -238,6 +238,23 @@ def check_case(spec, ctx=None):
     def has_missing(col):
         i = cols.index(col); return any(r[i] is Missing for r in rows)
 
+    def sync_order(where_):
+        """Rows inserted into an indexed table are sorted lazily (on the first query after the insert), so after a query the
+        table order is either the model order or a permutation of it that is sorted by the index columns."""
+        nonlocal rows
+        after = rows_of(table)
+        if same(after, rows): return None
+        note("oracle.lazy-resort")
+        if not indexes or Counter(map(_crow, after)) != Counter(map(_crow, rows)):
+            return (f"{where_}/table-rows-changed-by-query", f"a query changed the table: {rows[:6]} -> {after[:6]} (indexes {indexes})")
+        pos = [cols.index(c) for c in indexes]
+        keys = [tuple(r[p] for p in pos) for r in after]
+        for a, b in zip(keys, keys[1:]):
+            if _lex_gt(a, b):
+                return (f"{where_}/table-reordered-but-not-sorted", f"table indexed by {indexes}: keys {a} precede {b}")
+        rows = after
+        return None
+
     for n_op, op in enumerate(spec["ops"]):
         kind = op["op"]
         try:
@@ -262,19 +279,6 @@ def check_case(spec, ctx=None):
                     elif op["form"] == "cols": table.insert({c: [r[i] for r in new] for i, c in enumerate(ocols)})
                     else: table.insert([dict(zip(ocols, r)) for r in new])
                     rows += full
-                if indexes:
-                    # an indexed table stays indexed: the new rows are merged in index order.  The model adopts the
-                    # real order after checking that no row was added/dropped/altered and that the order is sorted.
-                    after = rows_of(table)
-                    if Counter(map(_crow, after)) != Counter(map(_crow, rows)):
-                        viol.append((f"insert/rows-changed/indexed", f"insert into an indexed table changed the row multiset")); return viol
-                    pos = [cols.index(c) for c in indexes]
-                    keys = [tuple(r[p] for p in pos) for r in after]
-                    for a, b in zip(keys, keys[1:]):
-                        if _lex_gt(a, b):
-                            viol.append((f"insert/indexed-table-not-sorted", f"after insert into a table indexed by {indexes} keys {a} precede {b}")); return viol
-                    note("oracle.insert.indexed")
-                    rows = after
             elif kind == "index":
                 want = [c for c in op["cols"] if c in cols]
                 before = Counter(map(_crow, rows))
@@ -283,12 +287,6 @@ def check_case(spec, ctx=None):
                 note("oracle.index")
                 if Counter(map(_crow, after)) != before:
                     viol.append((f"index/rows-changed", f"index{tuple(op['cols'])} changed the row multiset")); return viol
-                if want:
-                    pos = [cols.index(c) for c in want]
-                    keys = [tuple(r[p] for p in pos) for r in after]
-                    for a, b in zip(keys, keys[1:]):
-                        if _lex_gt(a, b):
-                            viol.append((f"index/not-sorted", f"after index{tuple(want)} keys {a} precede {b}")); return viol
                 if op["cols"] and cols: indexes = tuple(want)
                 rows = after
             elif kind == "copy":
@@ -298,6 +296,9 @@ def check_case(spec, ctx=None):
                 table = t2
             elif kind == "groupby":
                 if not indexes or not rows: continue
+                list(table.groupby(0))
+                bad = sync_order("groupby")
+                if bad: viol.append(bad); return viol
                 for level in range(len(indexes)):
                     note("oracle.groupby")
                     pos = [cols.index(c) for c in indexes[:level]]
@@ -326,14 +327,18 @@ def check_case(spec, ctx=None):
             elif kind == "where":
                 cur_t, cur_rows = table, rows
                 for depth, step in enumerate(op["chain"], 1):
-                    exp, unspec = model_where(cur_rows, cols, step)
-                    feat = _features(step, cols, indexes, cur_rows, depth, kinds, Missing)
                     raised = None
                     try:
                         res = real_where(cur_t, step)
                         got = rows_of(res)
                     except Exception as e:
                         raised = e
+                    if depth == 1:
+                        bad = sync_order("where")
+                        if bad: viol.append(bad); return viol
+                        cur_rows = rows
+                    exp, unspec = model_where(cur_rows, cols, step)
+                    feat = _features(step, cols, indexes, cur_rows, depth, kinds, Missing)
                     note("oracle.where"); note("oracle.where.indexed" if feat["indexed"] else "oracle.where.scan")
                     if depth > 1: note("oracle.where.view")
                     if ctx: ctx.case(("where", feat["sigkey"]), nontrivial=bool(cur_rows))
